@@ -186,7 +186,9 @@ def run_case(inp):
         return viols
     csv = not (fmt == "df" or is_parquet_fmt(fmt, locals().get("is_parquet")))
     prec = inp.get("precision") if inp.get("precision") is not None else 4
-    ptol = 0.5 * 10.0 ** (-prec) * 1.001 + 1e-6 * inp["pos_scale"] if csv else 0.0
+    # CSV: half a unit of the last requested decimal plus half a float32 ulp of the largest coordinate
+    ulp = float(np.spacing(np.float32(np.abs(m.pos).max(initial=1.0))))
+    ptol = 0.5 * 10.0 ** (-prec) * 1.001 + 0.51 * ulp if csv else 0.0
     dp = np.abs(back.pos.astype(np.float64) - m.pos.astype(np.float64)).max(initial=0)
     if dp > ptol:
         V("positions", f"positions differ by {dp:.3g} (allowed {ptol:.3g}, format {fmt})")
